@@ -83,6 +83,15 @@ def k1(ctx, rid):
                             conv = m
                         if is_decode and 'error::Error' in pth and ('::from' in pth):
                             conv = m
+                        # a named in-crate mapper (`.map_err(Self::eof_into_bincode)`): judged by its body, like a closure
+                        named = prog.body_of(k['fn'].get('res') or k['fn'].get('path') or '')
+                        if named is not None:
+                            names = [x.name for x in named.calls]
+                            aggs = [s2['r'] for b in named.blocks for s2 in b['s'] if s2['k'] == 'a' and s2['r']['k'] == 'agg']
+                            if is_read and 'into_bincode_if_unexpected_eof' in names:
+                                conv = m
+                            if is_decode and (any(x.name == 'from' and 'error::Error' in x.full for x in named.calls) or any(a2.get('adt') == 'error::Kind' and a2.get('variant') == 'Bincode' for a2 in aggs)):
+                                conv = m
                     l = op_local(a)
                     if l is not None and f.locals[l].get('h') == 'closure':
                         cl = prog.fns[f.locals[l]['a'][0]]
